@@ -101,7 +101,7 @@ theorem finish_two_noSingle (i : Nat) (c' : Content α) (ra rb : PT α) (fa fb :
       rcases hlf with h | ⟨_, h⟩
       · exact h
       · rw [b2] at h; simp at h
-    have : forwardLabel? (.cons (some ra) (.cons (some rb) .nil)) = some 0 := by simp [forwardLabel?, haf, b1]
+    have : forwardLabel? (.cons (some ra) (.cons (some rb) .nil)) = some 0 := by simp [forwardLabel?, a1, b1]
     subst hlf'
     simp only [finishNode, this, if_true]
     cases isRoot with
@@ -144,14 +144,14 @@ theorem elimChild_uniform {σ : Type} (tol : α) (O : Oracles σ α) (hd : Decis
         rcases not_indeterminate_cases _ (hd s ch.idx pst path (halfspace paff l) n) with h1 | h1
         · rw [h1] at hdi; simp [NState.isInfeasible] at hdi
         · exact h1
-      exact ⟨Or.inr ⟨elimNode_state_feasible tol O n false _ _ ch _ hf, trivial⟩, Or.inr (ih _ _), by simp [hf], by simp⟩
+      exact ⟨Or.inr ⟨elimNode_state_feasible tol O hd n false _ _ ch _ hf, trivial⟩, Or.inr (ih _ _), by simp [hf], by simp⟩
   | feasible =>
     simp only
-    exact ⟨Or.inr ⟨elimNode_state_feasible tol O n false _ _ ch s (by simp [NState.isFeasible]), trivial⟩,
+    exact ⟨Or.inr ⟨elimNode_state_feasible tol O hd n false _ _ ch s (by simp [NState.isFeasible]), trivial⟩,
       Or.inr (ih _ _), by simp, by simp⟩
   | witness ws =>
     simp only
-    exact ⟨Or.inr ⟨elimNode_state_feasible tol O n false _ _ ch s (by simp [NState.isFeasible]), trivial⟩,
+    exact ⟨Or.inr ⟨elimNode_state_feasible tol O hd n false _ _ ch s (by simp [NState.isFeasible]), trivial⟩,
       Or.inr (ih _ _), by simp, by simp⟩
 
 /-- C06 (structural part): on a total uniform tree the sweep leaves no single-branch decision below the root, except
